@@ -1,6 +1,6 @@
 (* C06 - object source spans and locations are exact.
    Model: Model/Build.v (process_node positions, get_location, pos_to_linecol) on Model/Peg.v trees. *)
-From TxV Require Import Core.Base Model.PegSyntax Model.Peg Model.Build Proofs.BuildProofs.
+From TxV Require Import Core.Base Model.PegSyntax Model.Peg Model.Build Proofs.BuildProofs Proofs.BuildObjProofs.
 
 (* get_location: line = 1 + number of newlines before the position, col = distance from the start
    of that line + 1, nchar = end - position; for every input and position inside it. *)
@@ -49,3 +49,22 @@ Example C06_node_nonvacuous :
   wf_tree (NT 0 [NT 1 [T 2 1 3 false]; T 3 5 1 false; NT 1 [T 2 7 2 false; T 3 9 1 false]]) = true.
 Proof. vm_compute. reflexivity. Qed.
 Print Assumptions C06_node_nonvacuous.
+
+(* Every object is built from a common-rule node and carries exactly that node's span, for every
+   grammar table, metamodel table, input, group oracle and option setting: processing the children
+   (assignments, nested objects) never moves the positions of the object under construction.
+   With C06_node_span: [_tx_position, _tx_position_end) = [start of the first terminal of the rule's
+   node, end of its last terminal). *)
+Theorem C06_object_span :
+  forall g mm input grp auto use_grp n kids top cls p e attrs top',
+    pnode g mm input grp auto use_grp (NT n kids) top = BOk (VObj cls p e attrs, top') ->
+    (exists c a, info mm n = IRule RCommon c a) ->
+    p = tpos (NT n kids) /\ e = tend (NT n kids).
+Proof. exact object_span_is_node_span. Qed.
+Print Assumptions C06_object_span.
+
+Example C06_object_span_nonvacuous :
+  pnode (mkGrammar [] 0 None) [IRule RCommon [65]%N []] [] (fun _ _ => None) true false
+        (NT 0 [T 1 2 3 false; T 1 7 1 false]) None = BOk (VObj [65]%N 2 8 [], None).
+Proof. vm_compute. reflexivity. Qed.
+Print Assumptions C06_object_span_nonvacuous.
